@@ -310,6 +310,75 @@ Section Locals.
 End Locals.
 
 (* ------------------------------------------------------------------ *)
+(* Resumable solvers: the locals that run re-creates are recoverable from
+   the persistent state wherever the loop can be (invariant Inv), except for
+   a stopping quantity that is re-initialised so that the test passes
+   (FISTA after 4fbea6d: step stores self.z = z, run restarts from self.z;
+   xupdate = inf.  ISTA is the special case where step ignores the locals). *)
+Section Resume.
+  Variables P L : Type.
+  Variable S0 : solver P L.
+  Variable Inv : P * L -> Prop.
+  Hypothesis Inv_enter : forall p, Inv (enter S0 p).
+  Hypothesis Inv_step : forall pl, Inv pl -> Inv (step S0 pl).
+  Hypothesis resume : forall pl, Inv pl -> step S0 pl = step S0 (enter S0 (fst pl)).
+  Hypothesis ok_fresh' : forall p, ok S0 (enter S0 p) = true.
+
+  Lemma runL_resume n pl pl' : fst pl = fst pl' -> ok S0 pl = ok S0 pl' -> step S0 pl = step S0 pl' ->
+    fst (runL S0 n pl) = fst (runL S0 n pl').
+  Proof.
+    intros H1 H2 H3. rewrite (runL_unfold S0 n pl), (runL_unfold S0 n pl'). unfold guard. rewrite H1, H2.
+    destruct ((iiter S0 (fst pl') <? n) && ok S0 pl'); [rewrite H3; reflexivity|exact H1].
+  Qed.
+
+  Lemma runL_inv n : forall pl, Inv pl -> Inv (runL S0 n pl).
+  Proof.
+    intros pl. remember (n - iiter S0 (fst pl)) as m eqn:E. revert pl E.
+    induction m; intros pl E I; rewrite runL_unfold; destruct (guard S0 n pl) eqn:G; auto.
+    - unfold guard in G. apply andb_true_iff in G. destruct G as [G _]. apply Nat.ltb_lt in G. lia.
+    - apply IHm; [rewrite step_iiter; lia|apply Inv_step; exact I].
+  Qed.
+
+  (* instalments = one run whenever the earlier instalment was ended by its
+     budget (not by the stopping test) *)
+  Theorem run_split_resume j n p : j <= n -> ok S0 (runL S0 j (enter S0 p)) = true ->
+    run S0 n (run S0 j p) = run S0 n p.
+  Proof.
+    intros Hjn H. unfold run at 1 3. rewrite <- (runL_compose S0 Hjn (enter S0 p)). unfold run.
+    set (pl := runL S0 j (enter S0 p)) in *.
+    assert (I : Inv pl) by (apply runL_inv, Inv_enter).
+    apply runL_resume; [reflexivity|rewrite H; apply ok_fresh'|symmetry; apply resume; exact I].
+  Qed.
+
+  (* driving programs with threaded locals (FISTA: x, z, xupdate = step(x, z);
+     after a run the caller re-reads them from the solver: z = solver.z) *)
+  Fixpoint safeL (N : nat) (prog : list cmd) (pl : P * L) : Prop :=
+    match prog with
+    | [] => True
+    | Step :: r => guard S0 N pl = true /\ ok S0 (step S0 pl) = true /\ safeL N r (step S0 pl)
+    | Run n :: r => n <= N /\ ok S0 (runL S0 n (enter S0 (fst pl))) = true /\ safeL N r (execL1 S0 (Run n) pl)
+    end.
+
+  Theorem progL_then_run N : forall prog pl, Inv pl -> ok S0 pl = true -> safeL N prog pl ->
+    run S0 N (fst (execL S0 prog pl)) = run S0 N (fst pl).
+  Proof.
+    induction prog as [|c r IH]; intros pl I Hok Hs; [reflexivity|].
+    change (execL S0 (c :: r) pl) with (execL S0 r (execL1 S0 c pl)).
+    destruct c as [|n]; cbn [safeL] in Hs.
+    - destruct Hs as (G & O & Hs). cbn [execL1]. rewrite (IH _ (Inv_step I) O Hs).
+      unfold run. rewrite (runL_unfold S0 N (enter S0 (fst pl))).
+      assert (guard S0 N (enter S0 (fst pl)) = true) as ->.
+      { unfold guard in *. apply andb_true_iff in G. destruct G as [G _]. cbn [fst enter]. rewrite G, ok_fresh'. reflexivity. }
+      rewrite <- (resume I). apply runL_resume; [reflexivity| |].
+      + rewrite ok_fresh', O. reflexivity.
+      + symmetry. apply resume. apply Inv_step. exact I.
+    - destruct Hs as (Hn & O & Hs). cbn [execL1] in *.
+      rewrite (IH _ (Inv_enter _) (ok_fresh' _) Hs). cbn [fst enter].
+      apply run_split_resume; assumption.
+  Qed.
+End Resume.
+
+(* ------------------------------------------------------------------ *)
 (* The abstract ("history") instance used by the correspondence: the state
    records only the call history that matters — the iteration counter and
    the iterations at which a step consumed re-created locals that differ
